@@ -8,13 +8,17 @@
 
 #include "ephemeralnet/protocol/Message.hpp"
 
+// ASan's default 256 MB free-quarantine makes every allocation touch fresh pages (measured 3x slower here);
+// cases are short-lived, 16 MB still covers many whole cases.  ASAN_OPTIONS from the environment still apply on top.
+extern "C" const char* __asan_default_options() { return "quarantine_size_mb=16"; }
+
 namespace verif {
 using namespace msggen;
 namespace P = ephemeralnet::protocol;
 
 const PropertyInfo kInfo = {
     "C13", 20, 6, 10,
-    "header -> message from the C15 generator (16 bytes, string/data lengths capped at 1100), session key length from {32,0,16,64,65,100,1,31,33,63} (all-zero / random / trailing-zero content), "
+    "header -> message from the C15 generator (16 bytes, string/data lengths capped at 300), session key length from {32,0,16,64,65,100,1,31,33,63} (all-zero / random / trailing-zero content), "
     "base buffer = independent encoding + OpenSSL MAC, or the repository's encode_signed output.  Each 6-byte record mutates the current buffer cumulatively and the "
     "acceptance predicate is re-checked after every step: bit flip (region: any / version+type / body / MAC first half / MAC second half), overwrite of 1..8 bytes, "
     "truncate by 1..40 or by exactly 32, extend by 1..40 (zeros / random / repeated tail), swap of two bytes / two 4-byte blocks / MAC with the preceding 32 bytes / rotation, "
@@ -25,7 +29,7 @@ const PropertyInfo kInfo = {
     "Non-trivial: at least one mutation applied.  Distinct = hash of the rendered case."};
 
 namespace {
-constexpr std::size_t kCap = 1100;  // string / data length cap (keeps the 1024 boundary)
+constexpr std::size_t kCap = 300;  // string / data length cap (keeps the 255..257 boundaries)
 struct Verdict { bool mac_ok, accepted; };
 
 Bytes alt_key(const Bytes& key, unsigned variant, Prng& prng, std::string& how) {
